@@ -35,48 +35,53 @@ theorem mkImage_ok (t : Raw) (g : GridTag) (h1 : 3 ≤ t.ndim) (h2 : g.shape = t
   unfold mkImage
   rw [if_neg (by omega), if_neg (by simp [h2])]
 
+theorem deepcopy_preserve (other : Option SVal) (s : SVal) (h : WFS s) :
+    step other .deepcopy (.one s) = .one s := by
+  cases s with
+  | plain t => simp [step, stepOne, deepcopyVal]
+  | batch f t gs a =>
+    obtain ⟨h1, h2, h3, h4⟩ := h
+    cases f with
+    | false =>
+      have := h4 rfl
+      subst this
+      simp [step, stepOne, deepcopyVal, makeInstance, mkImageBatch_ok t gs h1 h2, ofExcept]
+    | true =>
+      have := h3 rfl
+      simp only [List.getD_eq_getElem?_getD] at this
+      simp [step, stepOne, deepcopyVal, makeInstance, mkFlowFields, mkImageBatch_ok t gs h1 h2, ofExcept, this]
+  | image f t g a =>
+    obtain ⟨h1, h2, h3, h4⟩ := h
+    cases f with
+    | false =>
+      have := h4 rfl
+      subst this
+      simp [step, stepOne, deepcopyVal, mkImage_ok t g h1 h2, ofExcept]
+    | true =>
+      have := h3 rfl
+      simp only [List.headD_eq_head?_getD] at this
+      simp [step, stepOne, deepcopyVal, mkFlowField, mkImage_ok t g h1 h2, ofExcept, this]
+
 theorem copy_pickle_preserve (other : Option SVal) (s : SVal) (h : WFS s) :
     step other .pickle (.one s) = .one s ∧ step other .deepcopy (.one s) = .one s ∧
-      (s.isFlow = false → step other .copy (.one s) = .one s) := by
-  refine ⟨by simp [step, stepOne, pickleVal], ?_, ?_⟩
-  · cases s with
-    | plain t => simp [step, stepOne, deepcopyVal]
-    | batch f t gs a =>
-      obtain ⟨h1, h2, h3, h4⟩ := h
-      cases f with
-      | false =>
-        have := h4 rfl
-        subst this
-        simp [step, stepOne, deepcopyVal, makeInstance, mkImageBatch_ok t gs h1 h2, ofExcept]
-      | true =>
-        have := h3 rfl
-        simp only [List.getD_eq_getElem?_getD] at this
-        simp [step, stepOne, deepcopyVal, makeInstance, mkFlowFields, mkImageBatch_ok t gs h1 h2, ofExcept, this]
-    | image f t g a =>
-      obtain ⟨h1, h2, h3, h4⟩ := h
-      cases f with
-      | false =>
-        have := h4 rfl
-        subst this
-        simp [step, stepOne, deepcopyVal, mkImage_ok t g h1 h2, ofExcept]
-      | true =>
-        have := h3 rfl
-        simp only [List.headD_eq_head?_getD] at this
-        simp [step, stepOne, deepcopyVal, mkFlowField, mkImage_ok t g h1 h2, ofExcept, this]
-  · intro hf
-    cases s with
-    | plain t => simp [step, stepOne, copyVal]
-    | batch f t gs a =>
+      step other .copy (.one s) = .one s := by
+  have hdeep := deepcopy_preserve other s h
+  refine ⟨by simp [step, stepOne, pickleVal], hdeep, ?_⟩
+  cases s with
+  | plain t => simp [step, stepOne, copyVal]
+  | batch f t gs a =>
+    cases f with
+    | true => simpa [step, stepOne, copyVal, deepcopyVal] using hdeep
+    | false =>
       obtain ⟨h1, h2, _, h4⟩ := h
-      simp only [SVal.isFlow] at hf
-      subst hf
       have := h4 rfl
       subst this
       simp [step, stepOne, copyVal, mkImageBatch_ok t gs h1 h2, ofExcept]
-    | image f t g a =>
+  | image f t g a =>
+    cases f with
+    | true => simpa [step, stepOne, copyVal, deepcopyVal] using hdeep
+    | false =>
       obtain ⟨h1, h2, _, h4⟩ := h
-      simp only [SVal.isFlow] at hf
-      subst hf
       have := h4 rfl
       subst this
       simp [step, stepOne, copyVal, mkImage_ok t g h1 h2, ofExcept]
